@@ -92,6 +92,7 @@ class C02(core.Check):
                                        'in_gap_only': bool(info.get('in_gap_only')),
                                        'market_priced_at_path_position': info.get('market_priced_at_path_position'),
                                        'jumped_over_by_out_of_order_fill': info.get('jumped_over_by_out_of_order_fill'),
+                                       'sorted_along_raw_inner_minute': info.get('sorted_along_raw_inner_minute'),
                                        'after_being_overtaken': info.get('after_being_overtaken')}})
             if not bad and len(res.samples) < 3:
                 res.sample({'routes': sess['routes'], 'fast': sess['fast'], 'orders': len(tr.orders),
